@@ -16,6 +16,10 @@ Inductive color :=
 | CCReg (i : Z)            (* colour register, 0..63 *)
 | CBlend (t c0 c1 : Z).    (* three bytes *)
 
+(* the constructors PaletteIndexColor / CRegColor keep the low six bits of the index *)
+Definition palette_index_color (i : Z) : color := CPal (i mod 64).
+Definition creg_color (i : Z) : color := CCReg (i mod 64).
+
 Definition opaque_black : rgba := mkRGBA 0 0 0 255.
 
 (* var dc1Table = [5]byte{0x00, 0x40, 0x80, 0xc0, 0xff} *)
